@@ -20,12 +20,13 @@ from vlib import core, upstream, scenario, compose, layersup
 PID = 'C14'
 LEVEL = 'exploration'
 BUDGET_S = {'quick': 40, 'thorough': 540}
-# floors = ~40% of what seed 0 reaches on the tree as found (where the diagnosis of the many failures eats most of the
-# budget; on a repaired tree the same budget yields about six times as much)
-FLOORS = {'quick': {'pairs': 450, 'pixels_judged': 2500000, 'single_layer_requests': 220, 'combined_requests_observed': 70,
-                    'pruned_requests_observed': 40, 'opacity_layers': 200, 'colorkey_layers': 110, 'clip_layers': 70,
-                    'group_requests': 80, 'cache_layers': 100, 'alpha_judged': 180, 'res_hidden_layers': 170,
-                    'fmt_png8': 60, 'fmt_jpeg': 60, 'fmt_tiff': 70},
+# floors = 30-40% of what seed 0 reaches on the tree as found, where the diagnosis of the many failures eats ~60% of the
+# budget (quick: 1240 pairs on an idle machine, 840 with other checks running; thorough: 28900 pairs); on a repaired tree
+# the same budget yields about six times as much (quick 7000 pairs, thorough 58000)
+FLOORS = {'quick': {'pairs': 380, 'pixels_judged': 2000000, 'single_layer_requests': 180, 'combined_requests_observed': 55,
+                    'pruned_requests_observed': 32, 'opacity_layers': 160, 'colorkey_layers': 90, 'clip_layers': 55,
+                    'group_requests': 65, 'cache_layers': 80, 'alpha_judged': 150, 'res_hidden_layers': 140,
+                    'fmt_png8': 48, 'fmt_jpeg': 48, 'fmt_tiff': 55},
           'thorough': {'pairs': 11000, 'pixels_judged': 65000000, 'single_layer_requests': 5600,
                        'combined_requests_observed': 1900, 'pruned_requests_observed': 780, 'opacity_layers': 4000,
                        'colorkey_layers': 3200, 'clip_layers': 2000, 'group_requests': 2000, 'cache_layers': 2900,
@@ -874,7 +875,7 @@ def diagnose(run, d, spec, scp, sct, req, res, deadline, config=True):
                     continue
                 if label.split(':')[0] in trusted:
                     continue
-                if n_eval[0] > 80 or (deadline is not None and time.time() > deadline):
+                if n_eval[0] > 200 or (deadline is not None and time.time() > deadline):
                     complete = False
                     break
                 sp2, rq2 = (_copy(cur_spec), dict(cur_req)) if rebuild else (cur_spec, dict(cur_req))
@@ -1000,7 +1001,7 @@ def one_request(run, case, spec, scp, sct, req, d):
         run.violation(mech, {'i': case['i'], 'spec': spec, 'requests': [rqa]}, detail)
         return
     # stage B: remove optional features from the configuration (rebuilds both scenarios per candidate)
-    # (bounded by 80 evaluations, ~0.15 s each; it is allowed to overrun the shard budget so that every reported
+    # (bounded by 200 evaluations, ~0.15 s each; it is allowed to overrun the shard budget so that every reported
     # mechanism is a fully shrunk one - time spent here means fewer cases per run, reported as skipped_for_budget)
     t0 = time.time()
     sp2, rq2, r2, complete, _, _ = diagnose(run, d, spec, scp, sct, rqa, ra, None)
